@@ -327,6 +327,7 @@ class ClientEnd(object):
         self.active = True
         self.last_origin = None
         self.updates_per_step = 1    # application frames per server tick
+        self.on_connected = []       # callables(client) run inside the connect callback
         self.last_datagram = None
 
     @property
@@ -334,8 +335,12 @@ class ClientEnd(object):
         return self.udp.conn
 
     def connect(self, with_callback=True):
-        cb = (lambda ok: self.connect_cb.append((self.world.clock.now, ok))) if with_callback else None
-        self.udp.connect(SERVER_ADDR, cb)
+        def cb(ok):
+            self.connect_cb.append((self.world.clock.now, ok))
+            if ok:
+                for fn in self.on_connected:          # re-entrant use of the API from inside the connect callback
+                    fn(self)
+        self.udp.connect(SERVER_ADDR, cb if (with_callback or self.on_connected) else None)
 
     def tick(self):
         if not self.active or self.udp.conn is None:
